@@ -441,7 +441,9 @@ pub fn main(spec: Spec) -> ! {
             Tier::Quick => (f.quick, f.exhaustive_quick),
             Tier::Thorough => (f.thorough, f.exhaustive_thorough),
         };
-        let n = if exh { n } else { ((n as f64 * scale).ceil() as u64).max(if n > 0 { 1 } else { 0 }) };
+        // VERIF_MULT deepens the sampled families (the thorough tier sets it per property in ./check)
+        let mult: f64 = std::env::var("VERIF_MULT").ok().and_then(|s| s.parse().ok()).unwrap_or(1.0);
+        let n = if exh { n } else { ((n as f64 * scale * mult).ceil() as u64).max(if n > 0 { 1 } else { 0 }) };
         if !exh {
             exhaustive_all = false;
         } else {
